@@ -108,7 +108,7 @@ PENDING = {
 }
 
 ENGINES = [
- dict(name="cal", path="spec/Calendar.tla spec/DateArith.tla spec/MC_Calendar.tla spec/MC_Months.tla spec/Trace_Calendar.tla harness/src/cal.rs lib/checks_cal.py",
+ dict(name="cal", path="spec/Calendar.tla spec/DateArith.tla spec/MC_Calendar.tla spec/MC_Months.tla spec/apalache/AddMonthsInt.tla spec/Trace_Calendar.tla harness/src/cal.rs lib/checks_cal.py",
       serves_properties=["C04", "C05", "C08"], kind_free_text="TLA+ model checked by TLC + trace validation of the real crate's DateRoll calls"),
  dict(name="named", path="spec/NamedCal.tla spec/MC_NamedCal.tla spec/Trace_NamedCal.tla spec/Trace_Fixings.tla harness/src/named.rs lib/checks_named.py",
       serves_properties=["C06", "C07"], kind_free_text="TLA+ grammar/rule model checked by TLC + validation of recorded observations and fixing histories"),
@@ -116,7 +116,7 @@ ENGINES = [
       serves_properties=["C09", "C10"], kind_free_text="exact TLA+ state machine of the FX triangulation checked by TLC + history validation of real FXRates objects"),
  dict(name="curve", path="spec/Curve.tla spec/MC_Curve.tla spec/Gen_Curve.tla spec/Trace_Curve.tla harness/src/curve.rs lib/checks_curve.py",
       serves_properties=["C11", "C12"], kind_free_text="TLA+ model of interval selection and order switching checked by TLC + history validation of real curves"),
- dict(name="gauss", path="spec/Gauss.tla spec/MC_Gauss.tla spec/Trace_Gauss.tla harness/src/gauss.rs lib/checks_gauss.py",
+ dict(name="gauss", path="spec/Gauss.tla spec/MC_Gauss.tla spec/Trace_Gauss.tla spec/Linalg.tla spec/Trace_Linalg.tla harness/src/gauss.rs lib/checks_gauss.py",
       serves_properties=["C13"], kind_free_text="exact-rational TLA+ model of Gaussian elimination checked by TLC + residual validation of the real solvers"),
  dict(name="spline", path="spec/BSpline.tla spec/MC_BSpline.tla spec/Trace_BSpline.tla harness/src/spline.rs lib/checks_spline.py",
       serves_properties=["C14", "C15"], kind_free_text="declarative piecewise-polynomial B-spline basis checked by TLC + validation of recorded basis values and solved splines"),
